@@ -1,5 +1,6 @@
 import Lox.LR.CheckSound
 import Lox.LR.Refine
+import Lox.LR.SoundLog
 import Lox.LR.TermSound
 import Lox.LR.TermCounter
 import Lox.LR.Example
@@ -116,7 +117,7 @@ theorem parse_complete (h : check G nTerms nRules T cert = .ok ()) {w : List Nat
       (parse T w.toArray wb fuel).2.stack.head?.map (fun e => e.sym.toTree) = some t := by
   obtain ⟨n, hn⟩ := tables_complete h hd
   exact ⟨n, fun fuel hf =>
-    parse_accept (checkB_spec (check_ok_iff.mp h)) (inp := w.toArray) (by simpa using hw) wb
+    parse_accept (checkB_spec (check_ok_iff.mp h)).toSafeOK (inp := w.toArray) (by simpa using hw) wb
       (by simpa using hn) hf⟩
 
 /-- **The generated parser accepts only sentences** (tables without ERROR actions, i.e. the grammar
@@ -128,7 +129,7 @@ theorem parse_sound (h : check G nTerms nRules T cert = .ok ())
     ∃ t, Der G [.n (startSym G)] w [t] ∧
       (actsOf (parse T w.toArray wb fuel).2.log).reverse = t.post ∧
       (parse T w.toArray wb fuel).2.stack.head?.map (fun e => e.sym.toTree) = some t := by
-  have hc := checkB_spec (check_ok_iff.mp h)
+  have hc := (checkB_spec (check_ok_iff.mp h)).toSafeOK
   have ho := parse_outcome hc hne (inp := w.toArray) (by simpa using hw) wb fuel
   cases hr : run G (autoOf T cert) fuel (init w.toArray.toList) with
   | acc t lg =>
@@ -152,7 +153,7 @@ of range in `_Find`/`_rules`/`_termCounts`, no peek beyond the stack, no failed 
 theorem parse_no_panic (h : check G nTerms nRules T cert = .ok ())
     (hne : NoErrorActions T cert.size) {w : List Nat} (hw : ∀ x ∈ w, x ≠ 1)
     (wb : Bool) (fuel : Nat) (m : String) : (parse T w.toArray wb fuel).1 ≠ .panic m := by
-  have hc := checkB_spec (check_ok_iff.mp h)
+  have hc := (checkB_spec (check_ok_iff.mp h)).toSafeOK
   have ho := parse_outcome hc hne (inp := w.toArray) (by simpa using hw) wb fuel
   intro hp
   cases hr : run G (autoOf T cert) fuel (init w.toArray.toList) with
@@ -165,12 +166,58 @@ theorem parse_reject (h : check G nTerms nRules T cert = .ok ())
     (hne : NoErrorActions T cert.size) {w : List Nat} (hw : ∀ x ∈ w, x ≠ 1)
     (wb : Bool) (fuel : Nat) (hrej : (parse T w.toArray wb fuel).1 = .reject) :
     ¬ ∃ t, Der G [.n (startSym G)] w [t] := by
-  have hc := checkB_spec (check_ok_iff.mp h)
+  have hc := (checkB_spec (check_ok_iff.mp h)).toSafeOK
   have ho := parse_outcome hc hne (inp := w.toArray) (by simpa using hw) wb fuel
   cases hr : run G (autoOf T cert) fuel (init w.toArray.toList) with
   | acc t lg => rw [hr] at ho; rw [ho.1] at hrej; simp at hrej
   | fail => exact tables_reject h (by simpa using hr)
   | timeout => rw [hr] at ho; simp only at ho; rw [ho] at hrej; simp at hrej
+
+/-! ### The soundness half alone: tables whose conflicts were resolved by `@left/@right`
+
+For such grammars (e.g. examples/calc, examples/bolox) the generator deletes actions, the grammar is
+ambiguous and `check` rejects the completeness side. `checkSafe` (op `lr.validate_safe`) still
+passes and gives: nothing but sentences is accepted, the returned tree is a derivation tree of the
+input, and the reductions performed are its post-order. -/
+
+/-- **Soundness for a `checkSafe`-validated artefact**, whatever the fuel. -/
+theorem tables_sound_safe (h : checkSafe G nTerms nRules T cert = .ok ()) {w : List Nat}
+    (hw : eof ∉ w) {fuel : Nat} {t : Tree} {lg : List (Nat × List Tree)}
+    (hr : run G (autoOf T cert) fuel (init w) = .acc t lg) :
+    Der G [.n (startSym G)] w [t] ∧ lg = t.post :=
+  ⟨sound (checkSafe_sound h) hw hr, sound_log (checkSafe_sound h) hr⟩
+
+/-- The model of the generated `parse` on `checkSafe`-validated tables without ERROR actions:
+it accepts only sentences, the value it leaves is a derivation tree of the input and the `_act`
+calls are that tree's post-order; and it never panics. -/
+theorem parse_sound_safe (h : checkSafe G nTerms nRules T cert = .ok ())
+    (hne : NoErrorActions T cert.size) {w : List Nat} (hw0 : eof ∉ w) (hw : ∀ x ∈ w, x ≠ 1)
+    (wb : Bool) (fuel : Nat) :
+    (∀ m, (parse T w.toArray wb fuel).1 ≠ .panic m) ∧
+    ((parse T w.toArray wb fuel).1 = .accept →
+      ∃ t, Der G [.n (startSym G)] w [t] ∧
+        (actsOf (parse T w.toArray wb fuel).2.log).reverse = t.post ∧
+        (parse T w.toArray wb fuel).2.stack.head?.map (fun e => e.sym.toTree) = some t) := by
+  have hc := checkSafeB_spec (checkSafe_ok_iff.mp h)
+  have ho := parse_outcome hc hne (inp := w.toArray) (by simpa using hw) wb fuel
+  cases hr : run G (autoOf T cert) fuel (init w.toArray.toList) with
+  | acc t lg =>
+    rw [hr] at ho
+    have hr' : run G (autoOf T cert) fuel (init w) = .acc t lg := by simpa using hr
+    obtain ⟨hd, hlg⟩ := tables_sound_safe h hw0 hr'
+    refine ⟨fun m hp => ?_, fun _ => ⟨t, hd, by rw [ho.2.1, hlg], ho.2.2⟩⟩
+    rw [ho.1] at hp; simp at hp
+  | fail =>
+    rw [hr] at ho
+    refine ⟨fun m hp => ?_, fun hacc => ?_⟩
+    · rcases ho with ho | ho <;> rw [ho] at hp <;> simp at hp
+    · rcases ho with ho | ho <;> rw [ho] at hacc <;> simp at hacc
+  | timeout =>
+    rw [hr] at ho
+    simp only at ho
+    refine ⟨fun m hp => ?_, fun hacc => ?_⟩
+    · rw [ho] at hp; simp at hp
+    · rw [ho] at hacc; simp at hacc
 
 /-! ### Termination
 
@@ -221,7 +268,7 @@ theorem parse_decides (h : check G nTerms nRules T cert = .ok ()) (ht : termB G 
     ∃ N, ∀ fuel, N ≤ fuel →
       ((parse T w.toArray wb fuel).1 = .accept ∧ ∃ t, Der G [.n (startSym G)] w [t]) ∨
       ((parse T w.toArray wb fuel).1 = .reject ∧ ¬ ∃ t, Der G [.n (startSym G)] w [t]) := by
-  have hc := checkB_spec (check_ok_iff.mp h)
+  have hc := (checkB_spec (check_ok_iff.mp h)).toSafeOK
   obtain ⟨n, hn⟩ := tables_terminate h ht w
   refine ⟨n + w.length + 2, fun fuel hf => ?_⟩
   cases hr : run G (autoOf T cert) n (init w) with
@@ -236,7 +283,35 @@ theorem parse_decides (h : check G nTerms nRules T cert = .ok ()) (ht : termB G 
     exact Or.inr ⟨this, tables_reject h hr⟩
   | timeout => exact absurd hr hn
 
+/-- Termination also for `checkSafe`-validated tables. -/
+theorem tables_terminate_safe (h : checkSafe G nTerms nRules T cert = .ok ())
+    (ht : termB G T cert = true) (w : List Nat) :
+    ∃ fuel, run G (autoOf T cert) fuel (init w) ≠ .timeout :=
+  Lox.LR.tables_terminate_safe h ht w
+
 /-! ### Non-vacuity: the hypotheses hold for tables emitted by the real generator -/
+
+example : checkSafe Example.G 4 2 Example.T Example.cert = .ok () :=
+  checkSafe_ok_iff.mpr (by decide)
+
+/-- A precedence-resolved artefact: `check` rejects, `checkSafe` and `termB` accept. -/
+example : checkB ExamplePrec.G 4 2 ExamplePrec.T ExamplePrec.cert = false ∧
+    checkSafe ExamplePrec.G 4 2 ExamplePrec.T ExamplePrec.cert = .ok () ∧
+    termB ExamplePrec.G ExamplePrec.T ExamplePrec.cert = true :=
+  ⟨ExamplePrec.checkB_fails, ExamplePrec.checkSafe_ok, ExamplePrec.termB_ok⟩
+
+example : LocalTerm Example.G (autoOf Example.T Example.cert)
+    (termFuel Example.G Example.cert) :=
+  termB_spec (checkB_spec Example.checkB_ok).toSafeOK (by decide)
+
+/-- All hypotheses of `parse_decides` hold for the example tables. -/
+example : ∃ N, ∀ fuel, N ≤ fuel →
+    ((parse Example.T [2, 2, 3].toArray false fuel).1 = .accept ∧
+      ∃ t, Der Example.G [.n (startSym Example.G)] [2, 2, 3] [t]) ∨
+    ((parse Example.T [2, 2, 3].toArray false fuel).1 = .reject ∧
+      ¬ ∃ t, Der Example.G [.n (startSym Example.G)] [2, 2, 3] [t]) :=
+  parse_decides Example.check_ok (by decide) (noErrorB_spec (by decide)) (by decide) (by decide)
+    false
 
 example : termB Example.G Example.T Example.cert = true := by decide
 
